@@ -118,6 +118,8 @@ def model_classes(mdl, ref=None, nblocks=None):
     c.append("symm-" + (mdl.get("symm") or {"mode": "default"})["mode"])
     if mdl.get("repeat"):
         c.append("repeated-prepare-compute")
+    if mdl.get("phased"):
+        c.append("prepare-phase-before-compute-phase")
     if mdl.get("early"):
         c.append("objects-constructed-before-prepare")
     if mdl.get("order_spins"):
